@@ -431,6 +431,9 @@ class Builder:
             iff = ast.If(test=s.value.test, body=[a], orelse=[b])
             ast.copy_location(iff, s)
             self._stmt(iff, frame)
+        elif isinstance(s, ast.Assign) and self.thread_returns and \
+                self._assign_null_split(s, frame):
+            pass
         elif isinstance(s, (ast.Assign, ast.AugAssign, ast.AnnAssign)):
             if getattr(s, 'value', None) is not None:
                 self._expr(s.value, frame)
@@ -441,6 +444,22 @@ class Builder:
         elif isinstance(s, ast.Return):
             fi = self._func_index(frame)
             fs = self.stack[fi]
+            if fs.data.get('thread') == 'null':
+                # the caller assigns the result and tests it for None right
+                # away: keep "returned None" and "returned an object" apart
+                is_none = s.value is None or (
+                    isinstance(s.value, ast.Constant) and
+                    s.value.value is None)
+                if not is_none:
+                    self._expr(s.value, frame)
+                cls = 'F' if is_none else 'T'
+                if self.dangling:
+                    n = self._emit('stmt', s, frame)
+                    n.extra['ret_class'] = 'N' if is_none else 'O'
+                    self._abrupt(fi, frame)
+                    fs.data['ret_' + cls].extend(self.dangling)
+                self.dangling = []
+                return
             if fs.data.get('thread'):
                 # the caller branches on the returned value: `return E` is a
                 # branch on E (jump threading), so that what the helper
@@ -693,11 +712,125 @@ class Builder:
             r = self._cond_call(e, frame)
             if r is not None:
                 return r
+        if self.thread_returns:
+            r = self._null_test(e, frame)
+            if r is not None:
+                return r
         self._expr(e, frame)
         if not self.dangling:
             return [], []
         n = self._emit('test', e, frame)
         return [(n, 'T')], [(n, 'F')]
+
+    @staticmethod
+    def _provably_object(v) -> bool:
+        """expression that cannot evaluate to None"""
+        if isinstance(v, ast.Constant):
+            return v.value is not None
+        if isinstance(v, (ast.Tuple, ast.List, ast.Dict, ast.Set,
+                          ast.ListComp, ast.DictComp, ast.SetComp,
+                          ast.JoinedStr, ast.Compare, ast.BinOp)):
+            return True
+        return False
+
+    def _assign_null_split(self, s: ast.Assign, frame) -> bool:
+        """`x = helper(...)` where the inlined helper returns None on some
+        paths and an object on others: emit the assignment once per class
+        and remember the two continuations, so that an immediately
+        following `if x is None` / `if x` is threaded instead of joined."""
+        if len(s.targets) != 1 or not isinstance(s.targets[0], ast.Name) or \
+                not isinstance(s.value, ast.Call) or not self.dangling or \
+                frame.depth >= self.max_depth:
+            return False
+        e = s.value
+        res = self._resolve(e, frame)
+        if len(res.targets) != 1 or res.externals or res.unresolved or \
+                res.ctor_of or getattr(res, 'via', None) is not None:
+            return False
+        t = res.targets[0]
+        active = {f.ctx.key() for f in frame.chain()}
+        if t.ctx().key() in active or not self.inline(self, e, t, frame):
+            return False
+        from .model import walk_own
+        body = t.func.node
+        rets = [x for x in walk_own(body) if isinstance(x, ast.Return)]
+        if any(isinstance(x, (ast.Yield, ast.YieldFrom))
+               for x in walk_own(body)) or not rets:
+            return False
+
+        def is_none(r):
+            return r.value is None or (isinstance(r.value, ast.Constant) and
+                                       r.value.value is None)
+        nones = [r for r in rets if is_none(r)]
+        objs = [r for r in rets if not is_none(r)]
+        # module-level names bound to objects count as objects
+        mod = t.func.module
+
+        def obj(v):
+            if self._provably_object(v):
+                return True
+            if isinstance(v, (ast.Name, ast.Attribute)):
+                # a module-level object (possibly imported)
+                q = self.p.resolve_expr_qname(mod, v)
+                if q:
+                    mq, _, nm = q.rpartition('.')
+                    m2 = self.p.modules.get(mq)
+                    gv = getattr(m2, 'globals', {}).get(nm) if m2 else None
+                    if gv is not None:
+                        return isinstance(gv, ast.Call) or \
+                            self._provably_object(gv)
+                    if q in self.p.classes or q in self.p.functions:
+                        return True
+            if isinstance(v, ast.Call):
+                r2 = self.r.resolve_call(v, t.ctx())
+                return bool(r2.ctor_of)
+            return False
+        falls_off = True     # conservatively: the end of the body may be hit
+        if not nones and not falls_off:
+            return False
+        if not objs or not all(obj(r.value) for r in objs):
+            return False
+        self._expr(e.func, frame)
+        for a in e.args:
+            self._expr(a.value if isinstance(a, ast.Starred) else a, frame)
+        for k in e.keywords:
+            self._expr(k.value, frame)
+        if not self.dangling:
+            return True
+        o_edges, n_edges = self._inline(e, t, frame, res, thread='null')
+        outs = {}
+        for cls, edges in (('O', o_edges), ('N', n_edges)):
+            if not edges:
+                outs[cls] = []
+                continue
+            self.dangling = edges
+            n = self._emit('stmt', s, frame)
+            n.extra['null_class'] = cls
+            outs[cls] = list(self.dangling)
+        self.dangling = outs['O'] + outs['N']
+        self._null_pending = dict(name=s.targets[0].id, frame=frame,
+                                  O=outs['O'], N=outs['N'],
+                                  at=len(self.cfg.nodes))
+        return True
+
+    def _null_test(self, e, frame):
+        """(true edges, false edges) when `e` tests the variable of the
+        pending null split for None-ness / truthiness, else None."""
+        p = getattr(self, '_null_pending', None)
+        if not p or p['frame'] is not frame or \
+                p['at'] != len(self.cfg.nodes):
+            return None
+        nm = p['name']
+        if isinstance(e, ast.Compare) and len(e.ops) == 1 and \
+                isinstance(e.left, ast.Name) and e.left.id == nm and \
+                isinstance(e.comparators[0], ast.Constant) and \
+                e.comparators[0].value is None and \
+                isinstance(e.ops[0], (ast.Is, ast.IsNot)):
+            self._null_pending = None
+            if isinstance(e.ops[0], ast.Is):
+                return p['N'], p['O']
+            return p['O'], p['N']
+        return None
 
     def _cond_call(self, e: ast.Call, frame):
         """Branch on the result of a call that is inlined: thread each
